@@ -161,6 +161,43 @@ fn parse_dataset<'a>(toks: &mut std::iter::Peekable<impl Iterator<Item = &'a str
     }
 }
 
+fn has_inner_modifier(p: &GraphPattern) -> bool {
+    use GraphPattern::*;
+    match p {
+        Distinct { .. } | Slice { .. } | Reduced { .. } => true,
+        Bgp { .. } | Path { .. } | Values { .. } => false,
+        Filter { inner, expr } => {
+            let _ = expr;
+            has_inner_modifier(inner)
+        }
+        Graph { inner, .. } | Extend { inner, .. } | OrderBy { inner, .. } | Project { inner, .. } | Group { inner, .. }
+        | Service { inner, .. } => has_inner_modifier(inner),
+        Join { left, right } | LeftJoin { left, right, .. } | Union { left, right } | Minus { left, right } => {
+            has_inner_modifier(left) || has_inner_modifier(right)
+        }
+    }
+}
+
+/// a DISTINCT / slice below the outermost `Slice? (Distinct? (Project (OrderBy? ..)))` chain
+fn order_sensitive(q: &spargebra::Query) -> bool {
+    use GraphPattern::*;
+    let (spargebra::Query::Select { pattern, .. } | spargebra::Query::Ask { pattern, .. }) = q else { return false };
+    let mut p = pattern;
+    if let Slice { inner, .. } = p {
+        p = inner;
+    }
+    if let Distinct { inner } = p {
+        p = inner;
+    }
+    if let Project { inner, .. } = p {
+        p = inner;
+    }
+    if let OrderBy { inner, .. } = p {
+        p = inner;
+    }
+    has_inner_modifier(p)
+}
+
 pub fn exec(line: &str) -> String {
     let mut toks = line.split_whitespace().peekable();
     let kind = match toks.next() {
@@ -189,6 +226,13 @@ pub fn exec(line: &str) -> String {
         }
     };
     let a = report(&light, &query);
+    // a DISTINCT / OFFSET-LIMIT inside a sub-select keeps the *first* of several rows; which one is
+    // first depends on the store's iteration order, and the hidden variables of that row are visible
+    // outside (finding C13-subselect-leak): the answer is order dependent, so the two stores are not
+    // compared (the driver does not compare either: `orderSensitive`)
+    if order_sensitive(&query) {
+        return format!("{} skip=1", a.split(' ').next().unwrap_or(""));
+    }
     let b = report(&fast, &query);
     if kind == "raw" {
         // only totality is claimed for expressions outside the modelled core
